@@ -1,5 +1,218 @@
+/-
+  C09 — counts, degrees and the handshake identities, on the abstract graph (node list + edge
+  list) that every read API answers from (C02) and that the store refines (C01).
+  `Abs.api` (Obs.lean) is the specification the implementation's count / degree / density /
+  matrix functions are compared with on every run; here the identities the property states are
+  proved of that specification for every graph.
+-/
 import GraphrsModel.Obs
 namespace Graphrs
-/-- placeholder while the framework is brought up: replaced by the property theorems -/
-theorem C09_run_nil (sp : Specs) : (Abs.run sp []).2 = [] := rfl
+
+/-- endpoints are nodes and node names are pairwise distinct (holds on every reachable store) -/
+def Abs.Valid (a : Abs) : Prop := a.nodeNames.Nodup ∧ ∀ e ∈ a.edges, e.u ∈ a.nodeNames ∧ e.v ∈ a.nodeNames
+
+
+/-! ### helper lemmas -/
+
+private theorem sumNat_eq_sum (l : List Nat) : sumNat l = l.sum := by
+  unfold sumNat
+  have : ∀ acc, l.foldl (· + ·) acc = acc + l.sum := by
+    induction l with
+    | nil => simp
+    | cons a l ih => intro acc; simp [List.foldl_cons, ih]; omega
+  simpa using this 0
+
+private theorem sumInt_eq_sum (l : List Int) : sumInt l = l.sum := by
+  unfold sumInt
+  have : ∀ acc, l.foldl (· + ·) acc = acc + l.sum := by
+    induction l with
+    | nil => simp
+    | cons a l ih => intro acc; simp [List.foldl_cons, ih]; omega
+  simpa using this 0
+
+private theorem sumNat_cons (a : Nat) (l : List Nat) : sumNat (a :: l) = a + sumNat l := by
+  simp [sumNat_eq_sum]
+
+private theorem sum_map_add_int {α} (l : List α) (f g : α → Int) :
+    (l.map fun x => f x + g x).sum = (l.map f).sum + (l.map g).sum := by
+  induction l with
+  | nil => simp
+  | cons a l ih => simp [ih]; omega
+
+private theorem sum_map_zero {α} (l : List α) (f : α → Int) (h : ∀ x ∈ l, f x = 0) : (l.map f).sum = 0 := by
+  induction l with
+  | nil => simp
+  | cons a l ih =>
+    simp only [List.map_cons, List.sum_cons]
+    rw [h a (by simp), ih (fun x hx => h x (by simp [hx]))]; rfl
+
+/-- the indicator of one element of a duplicate-free list sums to its value -/
+private theorem sum_indicator (l : List Nat) (y : Nat) (c : Int) (hl : l.Nodup) (hy : y ∈ l) :
+    (l.map fun x => if y = x then c else 0).sum = c := by
+  induction l with
+  | nil => simp at hy
+  | cons a l ih =>
+    have hnd := List.nodup_cons.mp hl
+    simp only [List.map_cons, List.sum_cons]
+    by_cases hya : y = a
+    · subst hya
+      rw [sum_map_zero l _ (fun x hx => by
+        have : y ≠ x := fun h => hnd.1 (h ▸ hx)
+        simp [this])]
+      simp
+    · have hy' : y ∈ l := by
+        rcases List.mem_cons.mp hy with h | h
+        · exact absurd h hya
+        · exact h
+      rw [ih hnd.2 hy']; simp [hya]
+
+/-- **double counting**: distributing the edges over the (distinct) values of `f` loses nothing -/
+private theorem sum_by_key (l : List Nat) (es : List Edge) (f : Edge → Nat) (g : Edge → Int)
+    (hl : l.Nodup) (hf : ∀ e ∈ es, f e ∈ l) :
+    (l.map fun x => ((es.filter fun e => f e == x).map g).sum).sum = (es.map g).sum := by
+  induction es with
+  | nil => simpa using sum_map_zero l (fun _ => 0) (fun _ _ => rfl)
+  | cons e es ih =>
+    have h1 : ∀ x, (((e :: es).filter fun e => f e == x).map g).sum
+        = (if f e = x then g e else 0) + ((es.filter fun e => f e == x).map g).sum := by
+      intro x
+      by_cases h : f e = x <;> simp [h]
+    simp only [h1]
+    rw [sum_map_add_int, sum_indicator l (f e) (g e) hl (hf e (by simp)),
+      ih (fun e' he' => hf e' (by simp [he']))]
+    simp
+
+private theorem length_eq_sum_one (es : List Edge) : (es.length : Int) = (es.map fun _ => (1 : Int)).sum := by
+  induction es with
+  | nil => simp
+  | cons e es ih => simp only [List.length_cons, List.map_cons, List.sum_cons, ← ih]; omega
+
+private theorem natCast_sum_map {α} (l : List α) (k : α → Nat) :
+    (((l.map k).sum : Nat) : Int) = (l.map fun x => (k x : Int)).sum := by
+  induction l with
+  | nil => simp
+  | cons a l ih => simp only [List.map_cons, List.sum_cons, ← ih]; omega
+
+private theorem count_by_key (l : List Nat) (es : List Edge) (f : Edge → Nat)
+    (hl : l.Nodup) (hf : ∀ e ∈ es, f e ∈ l) :
+    sumNat (l.map fun x => (es.filter fun e => f e == x).length) = es.length := by
+  have h := sum_by_key l es f (fun _ => 1) hl hf
+  simp only [← length_eq_sum_one] at h
+  rw [sumNat_eq_sum]
+  have h2 := natCast_sum_map l (fun x => (es.filter fun e => f e == x).length)
+  omega
+
+/-- pointwise: touching + loops = out + in -/
+private theorem touching_split_gen (es : List Edge) (x : Nat) (g : Edge → Int) :
+    ((es.filter fun e => e.u == x || e.v == x).map g).sum + ((es.filter fun e => e.u == x && e.v == x).map g).sum
+      = ((es.filter fun e => e.v == x).map g).sum + ((es.filter fun e => e.u == x).map g).sum := by
+  induction es with
+  | nil => simp
+  | cons e es ih =>
+    by_cases h1 : (e.u == x) = true <;> by_cases h2 : (e.v == x) = true <;>
+      simp [h1, h2] <;> omega
+
+private theorem touching_split_len (es : List Edge) (x : Nat) :
+    (es.filter fun e => e.u == x || e.v == x).length + (es.filter fun e => e.u == x && e.v == x).length
+      = (es.filter fun e => e.v == x).length + (es.filter fun e => e.u == x).length := by
+  have h := touching_split_gen es x (fun _ => 1)
+  simp only [← length_eq_sum_one] at h
+  omega
+
+theorem C09_degree_eq_in_add_out (dir : Bool) (a : Abs) (x : Nat) :
+    a.degree dir x = (a.inEdges x).length + (a.outEdges x).length := by
+  cases dir
+  · simp only [Abs.degree, Abs.touching, Abs.inEdges, Abs.outEdges, Bool.false_eq_true, if_false]
+    exact touching_split_len a.edges x
+  · simp [Abs.degree]
+
+private theorem sumNat_map_add {α} (l : List α) (f g : α → Nat) :
+    sumNat (l.map fun x => f x + g x) = sumNat (l.map f) + sumNat (l.map g) := by
+  simp only [sumNat_eq_sum]
+  induction l with
+  | nil => simp
+  | cons a l ih => simp [ih]; omega
+
+/-- directed: the in-degrees sum to the number of edges (parallel edges counted individually) -/
+theorem C09_in_degrees_sum (a : Abs) (h : a.Valid) :
+    sumNat (a.nodeNames.map fun x => (a.inEdges x).length) = a.edges.length :=
+  count_by_key a.nodeNames a.edges (·.v) h.1 (fun e he => (h.2 e he).2)
+
+theorem C09_out_degrees_sum (a : Abs) (h : a.Valid) :
+    sumNat (a.nodeNames.map fun x => (a.outEdges x).length) = a.edges.length :=
+  count_by_key a.nodeNames a.edges (·.u) h.1 (fun e he => (h.2 e he).1)
+
+/-- directed: degree = in-degree + out-degree for every node (a self-loop counts in both) -/
+theorem C09_directed_degree_split (a : Abs) (x : Nat) :
+    a.degree true x = (a.inEdges x).length + (a.outEdges x).length := by
+  simp [Abs.degree]
+
+/-- **handshake**: the degrees of all nodes sum to twice the number of edges, on directed and undirected
+    graphs alike; a self-loop adds two to its node -/
+theorem C09_handshake (dir : Bool) (a : Abs) (h : a.Valid) :
+    sumNat (a.nodeNames.map fun x => a.degree dir x) = 2 * a.edges.length := by
+  simp only [C09_degree_eq_in_add_out]
+  rw [sumNat_map_add, C09_in_degrees_sum a h, C09_out_degrees_sum a h]
+  omega
+
+theorem C09_self_loop_counts_twice (dir : Bool) (x : Nat) (w : W) :
+    Abs.degree dir { nodes := [⟨x, none⟩], edges := [⟨x, x, w, none⟩] } x = 2 := by
+  cases dir <;> simp [Abs.degree, Abs.touching, Abs.inEdges, Abs.outEdges]
+
+/-- the weighted variants, for graphs whose edges all carry a weight: weights as integers -/
+def Abs.wsum (es : List Edge) : Int := sumInt (es.map fun e => e.w.getD 0)
+
+theorem C09_sumW_weighted (es : List Edge) (hw : ∀ e ∈ es, e.w.isSome = true) : Abs.sumW es = some (Abs.wsum es) := by
+  unfold Abs.sumW Abs.wsum
+  rw [sumInt_eq_sum]
+  have : ∀ c : Int, es.foldl (fun acc e => W.add acc e.w) (some c) = some (c + (es.map fun e => e.w.getD 0).sum) := by
+    induction es with
+    | nil => simp
+    | cons e es ih =>
+      intro c
+      have he := hw e (by simp)
+      obtain ⟨we, hwe⟩ := Option.isSome_iff_exists.mp he
+      have hadd : W.add (some c) e.w = some (c + we) := by rw [hwe]; rfl
+      simp only [List.foldl_cons, hadd, List.map_cons, List.sum_cons]
+      rw [ih (fun e' he' => hw e' (by simp [he'])), hwe]
+      simp only [Option.getD_some]
+      congr 1; omega
+  simpa using this 0
+
+private theorem wsum_eq (es : List Edge) : Abs.wsum es = (es.map fun e => e.w.getD 0).sum := by
+  unfold Abs.wsum; rw [sumInt_eq_sum]
+
+theorem C09_weightedDegree_eq (dir : Bool) (a : Abs) (x : Nat) (hw : ∀ e ∈ a.edges, e.w.isSome = true) :
+    a.weightedDegree dir x = some (Abs.wsum (a.inEdges x) + Abs.wsum (a.outEdges x)) := by
+  have hf : ∀ p : Edge → Bool, ∀ e ∈ a.edges.filter p, e.w.isSome = true :=
+    fun p e he => hw e (List.mem_filter.mp he).1
+  cases dir
+  · simp only [Abs.weightedDegree, Bool.false_eq_true, if_false, Abs.touching]
+    rw [C09_sumW_weighted _ (hf _), C09_sumW_weighted _ (hf _)]
+    simp only [W.add, wsum_eq, Abs.inEdges, Abs.outEdges]
+    rw [touching_split_gen]
+  · simp only [Abs.weightedDegree, if_true, Abs.inEdges, Abs.outEdges]
+    rw [C09_sumW_weighted _ (hf _), C09_sumW_weighted _ (hf _)]
+    simp only [W.add]
+
+theorem C09_weighted_handshake (dir : Bool) (a : Abs) (h : a.Valid) (hw : ∀ e ∈ a.edges, e.w.isSome = true) :
+    sumInt (a.nodeNames.map fun x => (a.weightedDegree dir x).getD 0) = 2 * Abs.wsum a.edges := by
+  simp only [C09_weightedDegree_eq dir a _ hw, Option.getD_some, sumInt_eq_sum, wsum_eq, Abs.inEdges, Abs.outEdges]
+  rw [sum_map_add_int]
+  have h1 := sum_by_key a.nodeNames a.edges (·.v) (fun e => e.w.getD 0) h.1 (fun e he => (h.2 e he).2)
+  have h2 := sum_by_key a.nodeNames a.edges (·.u) (fun e => e.w.getD 0) h.1 (fun e he => (h.2 e he).1)
+  rw [h1, h2]; omega
+
+/-- number_of_edges = size(false) = number of stored edges; size(true) = the sum of the weights -/
+theorem C09_counts (sp : Specs) (a : Abs) :
+    (Abs.api sp a).numEdges = a.edges.length ∧ (Abs.api sp a).sizeU = a.edges.length ∧
+    (Abs.api sp a).numNodes = a.nodes.length ∧ (Abs.api sp a).sizeW = Abs.sumW a.edges := by
+  simp [Abs.api]
+
+/-- non-vacuity: a directed multigraph with a self-loop -/
+example :
+    let a : Abs := { nodes := [⟨3, none⟩, ⟨1, none⟩], edges := [⟨3, 1, some 2, none⟩, ⟨3, 1, some 5, none⟩, ⟨3, 3, some 1, none⟩] }
+    a.Valid ∧ sumNat (a.nodeNames.map fun x => a.degree true x) = 6 := by
+  refine ⟨⟨by decide, by decide⟩, by decide⟩
+
 end Graphrs
